@@ -18,15 +18,18 @@ VerdictF(ev) ==
   ELSE IF ~ev.fin THEN <<"-", "NonFinite">>
   ELSE IF \E i \in 1..N : ~VecClose12(ev.rows[i], ev.oo[i], TolRederived) THEN <<"C07", "RowMismatch">>
   ELSE OK
+\* tolerance decided by the spec: a call over fewer objects whose path axis is shorter does not tile the same paths (tiling rebuilds the
+\* orientation and re-normalises its quaternions: inputs re-derived, 1e-8); every other form evaluates bit-identical inputs (1e-12)
+FormTol(ev) == IF ev.form \in {"src_method", "sens_method"} /\ ev.malt < Len(ev.T[1]) THEN TolRederived ELSE TolSame
 VerdictForm(ev) ==
   IF ev.outcome # "ok" THEN <<"C07", "FormRejected">>
   ELSE IF ev.malt < 1 \/ ev.malt > Len(ev.T[1]) THEN <<"C07", "FormPathLength">>
-  ELSE IF ~CloseFlat(ev.alt, ExpectedFlat(ev.T, ev.form, ev.l, ev.k, ev.malt), ev.tol) THEN <<"C07", "FormMismatch">>
-  ELSE IF ~StaticBeyond(ev.T, ev.form, ev.l, ev.k, ev.malt, ev.tol) THEN <<"C06", "StaticBeyondPath">>
+  ELSE IF ~CloseFlat(ev.alt, ExpectedFlat(ev.T, ev.form, ev.l, ev.k, ev.malt), FormTol(ev)) THEN <<"C07", "FormMismatch">>
+  ELSE IF ~StaticBeyond(ev.T, ev.form, ev.l, ev.k, ev.malt, TolSame) THEN <<"C06", "StaticBeyondPath">>
   ELSE IF ev.form = "dataframe" /\ ev.index # DataframeIndex(ev.T) THEN <<"C07", "DataframeOrder">>
   ELSE OK
 Verdict(ev) == IF ev.kind = "functional" THEN VerdictF(ev)
-               ELSE IF ev.tol \notin {TolSame, TolRederived} THEN <<"-", "BadTolerance">> ELSE VerdictForm(ev)
+               ELSE VerdictForm(ev)
 BadIdx == {i \in 1..Len(Trace) : Verdict(Trace[i])[1] # "ok"}
 ASSUME PrintT(<<"validated", Len(Trace), "rejected", Cardinality(BadIdx)>>)
 ASSUME \A i \in BadIdx : LET v == Verdict(Trace[i]) IN PrintT(<<"REJECT", Trace[i].tid, v[2], v[1], <<Trace[i].kind, Trace[i].what, Trace[i].outcome>>>>)
